@@ -107,7 +107,7 @@ theorem resolveP_spec {env : Env} (he : EnvOk env) (p : Prim) (hp : p.plain = tr
   | created q => simp [Prim.plain] at hp
   | _ => exact ⟨clean_ok _, fun q hq => by cases hq; exact ⟨hp, fun h => by simp [Prim.isRef] at h⟩⟩
 
-theorem chase_nonref (env : Env) (n : Nat) (q : Prim) (h : q.isRef = false) : chase env n q = .ok q := by
+theorem chase_nonref_c01 (env : Env) (n : Nat) (q : Prim) (h : q.isRef = false) : chase env n q = .ok q := by
   cases n <;> simp [chase, h]
 
 /-- following references ends after one step -/
@@ -123,10 +123,10 @@ theorem chase_spec {env : Env} (he : EnvOk env) (p : Prim) (hp : p.plain = true)
     | ok q =>
       obtain ⟨h1, h2⟩ := hv q hres
       simp only []
-      rw [chase_nonref env n q (h2 hr)]
+      rw [chase_nonref_c01 env n q (h2 hr)]
       exact ⟨clean_ok _, fun q' hq' => by cases hq'; exact ⟨h1, h2 hr⟩⟩
   · have hr' : p.isRef = false := by simpa using hr
-    rw [chase_nonref env (n + 1) p hr']
+    rw [chase_nonref_c01 env (n + 1) p hr']
     exact ⟨clean_ok _, fun q hq => by cases hq; exact ⟨hp, hr'⟩⟩
 
 theorem mapR_clean {α β : Type} (f : α → R β) (xs : List α) (h : ∀ x ∈ xs, Clean (f x)) : Clean (mapR f xs) := by
